@@ -287,6 +287,9 @@ func (g *genState) depArg(nsvc int, allowSvc bool) Arg {
 	}
 	if !g.o.Plain {
 		opts = append(opts, "value")
+		if g.o.Runnable && g.src.Chance("agontainer", 1, 6) {
+			return Arg{Kind: "gontainer"}
+		}
 	} else {
 		var o2 []string
 		for _, x := range opts {
